@@ -441,6 +441,16 @@ func (e *env) pbget(keys [][]byte) string {
 
 // ---------------------------------------------------------------- op execution
 
+func refused(f func()) (r bool) {
+	defer func() {
+		if recover() != nil {
+			r = true
+		}
+	}()
+	f()
+	return false
+}
+
 func bound(tok string) ([]byte, bool) {
 	if tok == "nil" {
 		return nil, true
@@ -556,6 +566,20 @@ func exec(line string) string {
 			if prop && (h != depth || h == 0) {
 				return "bad-op" // property forms are only defined for the innermost live handle
 			}
+			// a handle that is not the innermost live one is refused by a panic before anything is touched
+			// ("should never happen in production"): that is the documented answer, not a crash of the harness
+			if h != 0 && ((w[0] == "release" && h != depth) || (w[0] == "cleanup" && h < depth)) {
+				if refused(func() {
+					if w[0] == "release" {
+						e.buf.Release(h)
+					} else {
+						e.buf.Cleanup(h)
+					}
+				}) {
+					return "refused"
+				}
+				return "FAIL stale-handle-accepted"
+			}
 			switch w[0] {
 			case "release":
 				e.buf.Release(h)
@@ -574,7 +598,6 @@ func exec(line string) string {
 				e.dropSavepoints()
 				return e.sameView(at)
 			}
-			// (a panic above leaves the bookkeeping untouched, as the buffer does)
 			if h == depth && h != 0 {
 				e.stageViews = e.stageViews[:depth-1]
 				e.dropSavepoints()
@@ -891,7 +914,7 @@ func main() {
 		return
 	}
 	g := &gen{r: vx.NewRand(run.Seed), run: run}
-	nCases, nOps := 700, 30
+	nCases, nOps := 2400, 30
 	if run.Thorough() {
 		nCases, nOps = 12000, 60
 	}
